@@ -20,9 +20,10 @@ namespace Discret.Adm
     (after e10cc1c and 8e31124): the two steps only look at these two switches. -/
 theorem C14_code_is_intended :
     Defects.asImplemented.jsonNullPanics = false ∧ Defects.asImplemented.emptyKeyPanics = false ∧
+    Defects.asImplemented.dateRangePanics = false ∧
     (∀ ft pv, bind Defects.asImplemented ft pv = bind Defects.none ft pv) ∧
     (∀ first len, importVerifyingKey Defects.asImplemented first len = importVerifyingKey Defects.none first len) :=
-  ⟨rfl, rfl, fun _ _ => rfl, fun _ _ => rfl⟩
+  ⟨rfl, rfl, rfl, fun _ _ => rfl, fun _ _ => rfl⟩
 
 /-! ### (1) the admission matrix -/
 
@@ -113,10 +114,10 @@ theorem C14_day_bounds_total (t : Int) : dayBoundsPanics Defects.none t = false 
     overflows) and one past each end of chrono's range panic the reader thread that computes the day bounds. -/
 theorem C14_breaks_dateRangePanics :
     ∀ t ∈ [(9223372036854775807 : Int), -9223372036854775808, 8210266876799999, 8210266876800000, -8334601228800001],
-      dayBoundsPanics Defects.asImplemented t = true := by decide
+      dayBoundsPanics Defects.beforeFixes t = true := by decide
 
-/-- **C14_date_partial** (code as implemented): a date inside chrono's range whose next day is inside too never panics -/
-theorem C14_date_partial (t : Int) (h : dateInRange t = true) : dayBoundsPanics Defects.asImplemented t = false := by
+/-- **C14_date_partial** (the code before e1bf202): a date inside chrono's range whose next day is inside too never panics -/
+theorem C14_date_partial (t : Int) (h : dateInRange t = true) : dayBoundsPanics Defects.beforeFixes t = false := by
   simp [dayBoundsPanics, h]
 
 /-! ### (3) identifiers: the grammar against the storage engine -/
